@@ -94,6 +94,9 @@ Judge(c) ==
             IF ~r.ok THEN PrintT(<<"REJECT", c.id, "reader_" \o r.why, r.pos>>)
             ELSE IF ~DocEq(r.grids, c.expect) THEN PrintT(<<"REJECT", c.id, "differs_" \o DiffClause(r.grids, c.expect), 0>>)
             ELSE IF ~ZoneConsistent(r.grids, c.zones) THEN PrintT(<<"REJECT", c.id, "zone_offset_mismatch", 0>>)
+            \* a grid built with version "3.0" is written ver:"3.0" -- not another spelling of the same number
+            ELSE IF "verexact" \in DOMAIN c /\ c.verexact # <<>> /\ r.grids # <<>> /\ r.grids[1][2] # c.verexact
+                 THEN PrintT(<<"REJECT", c.id, "version_spelling", 0>>)
             ELSE PrintT(<<"OK", c.id>>)
         ELSE IF c.k = "same" THEN        \* two abstract documents (e.g. a grid and its round trip)
             (IF DocEq(c.a, c.b) THEN PrintT(<<"OK", c.id>>)
